@@ -80,7 +80,8 @@ def handle (line : String) : String :=
       let tok := Bytes.ofString method
       let m := classify true tok
       let r : Req := { safe := m.safe, idem := m.idem, hasBody := hasBody }
-      let (s, o) := scenario c r bodySent ads pr fl
+      let headReq := m.image == [72, 69, 65, 68]
+      let (s, o) := scenario c r bodySent headReq ads pr fl
       let seen := if dispatches o == 0 then "-" else asText m.image
       s!"st={finalStatus s} arr={showArr o} m={seen}"
     | _, _, _, _, _ => "bad-op"
